@@ -1,3 +1,4 @@
 -- Root of the library: every property file (and through them the model, spec and proofs).
 import Revm.Props.C03
 import Revm.Props.C05
+import Revm.Props.C13
